@@ -167,6 +167,8 @@ def set_mode_exprs(cls, env):
             return "(%s %s %s)" % (tr(n.left), op, tr(n.right))
         if isinstance(n, ast.Call) and isinstance(n.func, ast.Name) and len(n.args) == 1 and not n.keywords:
             t = selfattr(n.args[0])
+            if t is None and isinstance(n.args[0], ast.Name):
+                t = local_of.get(n.args[0].id)      # the local the table was assigned from
             tab = {"DAYS_IN_MONTHS": "dim", "DAYS_IN_MONTHS_LEAP": "diml"}.get(t)
             if tab is None:
                 raise Skip()
@@ -179,6 +181,21 @@ def set_mode_exprs(cls, env):
         raise Skip()
 
     assigned_inputs = set()
+    local_of = {}
+    seen_input = False
+    for st in sm.body:
+        # a local that a month table was assigned from stands for that table, provided it is not
+        # rebound afterwards and does not name both tables
+        if seen_input:
+            for n in ast.walk(st):
+                if isinstance(n, ast.Name) and isinstance(n.ctx, ast.Store) and n.id in local_of:
+                    raise Reject("set_mode rebinds %s after assigning the month tables" % n.id)
+        if isinstance(st, ast.Assign) and len(st.targets) == 1 and selfattr(st.targets[0]) in SM_INPUTS \
+                and isinstance(st.value, ast.Name):
+            if st.value.id in local_of:
+                raise Reject("set_mode assigns both month tables from %s" % st.value.id)
+            local_of[st.value.id] = selfattr(st.targets[0])
+            seen_input = True
     for st in sm.body:
         if not isinstance(st, ast.Assign) or len(st.targets) != 1:
             continue
